@@ -1,4 +1,5 @@
 import Wx.Pure.SignalsCase
+import Wx.Pure.SignalsThm
 /-! # C19 — Signal names and exit statuses convert consistently
 
 > Every signal's display form parses back to the same OS signal; parsing is case-insensitive and agrees between the
